@@ -38,6 +38,11 @@ Recognised shapes (anything else raises Untranslatable -> tie broken):
  api.py   (wrapper skeleton language: with / try-except-that-always-raises / try-finally / the call of
            the wrapped function / statements that do not mention contexts)
    do_not_convert.wrapper, call_with_unspecified_conversion_status.wrapper, convert.decorator.wrapper
+   decorator bodies outside the wrapper: [if func is None: return do_not_convert] ;
+                                         [if is_autograph_artifact(x): return x]   -> gen_*_skips_art := true ;
+                                         def wrapper ; if inspect.isfunction(x) or inspect.ismethod(x): wrapper =
+                                         functools.update_wrapper(wrapper, x) ; return autograph_artifact(wrapper) ;
+                                         logging calls
    convert(..., conversion_ctx=ag_ctx.NullCtx())
    internal_convert                      if/elif chain on ctx.status == ag_ctx.Status.X assigning wrapper_factory
    converted_call                        `if ag_ctx.control_status_ctx().status == ag_ctx.Status.DISABLED:
@@ -506,6 +511,36 @@ def _api(repo):
         if not (w.args.vararg and w.args.kwarg and not w.args.args):
             _fail(fn, w, 'wrapper signature is not (*args, **kwargs)')
 
+    def decorator_body(f, funcarg, inner, allow_none_default=False):
+        """Every statement of a decorator outside its wrapper must be one of the known ones; returns whether the
+        decorator hands artifacts back unwrapped (`if is_autograph_artifact(x): return x` before the wrapper)."""
+        skips = False
+        seen_inner = False
+        for s in _nodoc(f.body):
+            t = _src(s)
+            if isinstance(s, ast.FunctionDef) and s.name == inner:
+                seen_inner = True
+            elif allow_none_default and t == 'if %s is None:\n    return %s' % (funcarg, f.name):
+                pass
+            elif isinstance(s, ast.If) and _src(s.test) == 'is_autograph_artifact(%s)' % funcarg and not s.orelse \
+                    and [_src(x) for x in s.body] == ['return ' + funcarg]:
+                if seen_inner:
+                    _fail(fn, s, 'artifact shortcut after the wrapper definition in ' + f.name)
+                skips = True
+            elif isinstance(s, ast.If) and not s.orelse and \
+                    _src(s.test) == 'inspect.isfunction(%s) or inspect.ismethod(%s)' % (funcarg, funcarg) and \
+                    [_src(x) for x in s.body] == ['%s = functools.update_wrapper(%s, %s)' % (inner, inner, funcarg)]:
+                pass
+            elif t in ('return autograph_artifact(%s)' % inner, 'return %s' % inner) and seen_inner:
+                if t == 'return %s' % inner and inner == 'wrapper':
+                    _fail(fn, s, '%s returns its wrapper without marking it as an artifact' % f.name)
+            elif isinstance(s, ast.Expr) and isinstance(s.value, ast.Call) and _src(s.value.func).startswith('logging.') \
+                    and not _mentions(s):
+                pass
+            else:
+                _fail(fn, s, 'statement of decorator %s outside its wrapper: %s' % (f.name, t[:80]))
+        return skips
+
     def outer_clean(f, inner_names):
         """the decorator itself (outside the wrapper) does not touch contexts"""
         for s in _nodoc(f.body):
@@ -521,6 +556,7 @@ def _api(repo):
         w = wrapper_of(f, ['wrapper'])
         check_wrapper_sig(w)
         outer_clean(f, ['wrapper'])
+        out[key + '_skips'] = decorator_body(f, funcarg, 'wrapper', allow_none_default=(name == 'do_not_convert'))
         out[key] = _wcode(fn, w.body, callee=lambda c, a=funcarg: isinstance(c.func, ast.Name) and c.func.id == a, param=None)
     # convert
     f = top('convert')
@@ -538,6 +574,10 @@ def _api(repo):
         if not (isinstance(s, ast.FunctionDef) and s.name == 'decorator') and _mentions(s):
             _fail(fn, s, 'convert touches contexts outside decorator.wrapper')
     outer_clean(dec, ['wrapper'])
+    out['convert_skips'] = decorator_body(dec, target, 'wrapper')
+    for s in _nodoc(f.body):
+        if not (isinstance(s, ast.FunctionDef) and s.name == 'decorator') and _src(s) != 'return decorator':
+            _fail(fn, s, 'statement of convert outside decorator: ' + _src(s)[:80])
     out['convert'] = _wcode(
         fn, w.body,
         callee=lambda c: _src(c.func) == 'converted_call' and c.args and isinstance(c.args[0], ast.Name) and c.args[0].id == target,
@@ -597,9 +637,12 @@ def _api(repo):
     rest = [_src(s) for s in body[idx + 1:]]
     if rest != ['wrapper = wrapper_factory(f)', 'return autograph_artifact(wrapper)']:
         _fail(fn, f, 'tail of internal_convert %r' % rest)
+    out['internal_skips'] = False
     for s in body[:idx]:
-        if not (isinstance(s, ast.If) and _src(s.test) == 'is_autograph_artifact(f)' and [_src(x) for x in s.body] == ['return f']):
+        if not (isinstance(s, ast.If) and _src(s.test) == 'is_autograph_artifact(f)' and not s.orelse
+                and [_src(x) for x in s.body] == ['return f']):
             _fail(fn, s, 'statement before the status switch in internal_convert')
+        out['internal_skips'] = True
     out['internal'] = table
     # converted_call: DISABLED check before any conversion
     f = top('converted_call')
@@ -674,10 +717,15 @@ def translate(repo):
         '  end.',
         'Definition gen_disabled_check : bool := %s.' % _b(p['disabled_check']),
         'Definition gen_to_graph_user_requested : bool := %s.' % _b(p['to_graph_ur']),
+        'Definition gen_dnc_skips_art : bool := %s.' % _b(p['dnc_skips']),
+        'Definition gen_unspec_skips_art : bool := %s.' % _b(p['unspec_skips']),
+        'Definition gen_convert_skips_art : bool := %s.' % _b(p['convert_skips']),
+        'Definition gen_internal_skips_art : bool := %s.' % _b(p['internal_skips']),
         'Definition gen_tables : tables :=',
         '  mk_tables gen_ctx_enter gen_ctx_exit gen_default_status gen_thread_local gen_scope',
         '            gen_with_function_scope gen_converted_fn gen_do_not_convert gen_unspecified gen_convert',
-        '            gen_internal gen_disabled_check gen_to_graph_user_requested.',
+        '            gen_internal gen_disabled_check gen_to_graph_user_requested',
+        '            gen_dnc_skips_art gen_unspec_skips_art gen_convert_skips_art gen_internal_skips_art.',
         '',
     ]
     return '\n'.join(lines)
